@@ -225,6 +225,58 @@ func InlineOneOfMembers(doc M) (M, bool) {
 	return out, changed
 }
 
+// InlineAllOfMembers replaces the $ref members of every allOf in
+// components.schemas that point to a plain object schema (no composition, no
+// additionalProperties of its own) by inline copies. Returns false when the
+// document has no such member.
+func InlineAllOfMembers(doc M) (M, bool) {
+	out := CloneM(doc)
+	comps, _ := out["components"].(M)
+	schemas, _ := comps["schemas"].(M)
+	changed := false
+	for _, name := range sortedKeys(schemas) {
+		s, ok := schemas[name].(M)
+		if !ok {
+			continue
+		}
+		members, ok := s["allOf"].(L)
+		if !ok {
+			continue
+		}
+		for i, m := range members {
+			mm, ok := m.(M)
+			if !ok {
+				continue
+			}
+			ref, ok := mm["$ref"].(string)
+			if !ok {
+				continue
+			}
+			target, ok := derefOnce(out, ref)
+			tm, isM := target.(M)
+			if !ok || !isM || tm["type"] != "object" || tm["additionalProperties"] != nil || tm["allOf"] != nil || tm["oneOf"] != nil {
+				continue
+			}
+			plain := true
+			for _, pv := range asMap(tm["properties"]) {
+				if pm, ok := pv.(M); ok && (pm["type"] == "object" || pm["allOf"] != nil || pm["oneOf"] != nil) {
+					plain = false // nested inline objects inside an inline member: recorded C01 finding
+				}
+			}
+			if plain {
+				members[i] = Clone(tm)
+				changed = true
+			}
+		}
+	}
+	return out, changed
+}
+
+func asMap(v any) M {
+	m, _ := v.(M)
+	return m
+}
+
 // AliasChains replaces, with probability p each, the $ref to a parameter,
 // header, request body or response component by a $ref to a fresh alias
 // component that reaches the same target through 1-3 hops ("through any
@@ -363,6 +415,9 @@ func RefPairs(seed int64, n int) []Case {
 		mk("inline-all", InlineAll(b.Spec, map[string]bool{"parameters": true, "headers": true, "requestBodies": true, "responses": true, "schemas": true}))
 		if v, ok := InlineOneOfMembers(b.Spec); ok {
 			mk("inline-oneof-members", v)
+		}
+		if v, ok := InlineAllOfMembers(b.Spec); ok {
+			mk("inline-allof-members", v)
 		}
 		mk("hoist-all", Hoist(b.Spec, rng, 1))
 		mk("hoist-partial", Hoist(b.Spec, rng, 0.5))
